@@ -1,0 +1,16 @@
+//go:build !verif
+
+package fox
+
+// Verification points are compiled out unless the "verif" build tag is set (see verif_on.go).
+const (
+	vpLockWait = iota
+	vpLockAcquired
+	vpLoad
+	vpBeforeStore
+	vpAfterStore
+	vpAbort
+	vpUnlocked
+)
+
+func verifPoint(*Router, int) {}
